@@ -4,7 +4,9 @@ Every base spectrum is put into ONE batch together with all its N rotations and 
 (the batch axis is the rotation index), so a single implementation call yields everything the
 relation needs.  The extracted Coq model is compared on the original, two rotations and the mirror.
 """
+import json
 import math
+import os
 
 import common as C
 import props.C08 as G
@@ -34,6 +36,22 @@ def mir_E(E, N):
     return [[r[(N - j) % N] for j in range(N)] for r in E]
 
 
+SOLVER_KEY = "roughness:newton-convergence-differs-under-rotation"
+
+
+def load_corpus():
+    """deterministic cases kept from earlier runs (corpus/C09/*.json), evaluated first on every run"""
+    d = os.path.join(C.VERIF, "corpus", "C09")
+    out = []
+    if os.path.isdir(d):
+        for fn in sorted(os.listdir(d)):
+            if fn.endswith(".json"):
+                o = json.load(open(os.path.join(d, fn)))
+                o["name"] = fn[:-5]
+                out.append(o)
+    return out
+
+
 def ang_close(a, b, tol_deg=1e-7):
     d = (a - b + 180.0) % 360.0 - 180.0
     return abs(d) <= tol_deg
@@ -44,23 +62,35 @@ def run(ctx):
     nbase = ctx.n(12, 300)
     bases = []
     cases = []
-    for bi in range(nbase):
-        grid = G.gen_grid(rng, uniform_dirs=True, nd_choices=(16, 24, 36), nf_range=(8, 16))
-        if bi < 3:
-            grid = G.gen_grid(rng, uniform_dirs=True, nd_choices=((16, 24, 36)[bi],), nf_range=(8, 16))
-        N = len(grid["dir"])
-        step = 360.0 / N
-        windkind = rng.choice(["u10", "u10", "u10", "friction_velocity"])
-        nondefault = rng.random() < 0.5
-        gp, s4, s6, ro = G.gen_params(rng, nondefault)
-        if nondefault and rng.random() < 0.5:
-            # band widths that are whole multiples of the bin width: the band edge falls on bin centres
-            s4["saturation_integration_width_degrees"] = rng.choice([m * step for m in range(1, N) if 40 <= m * step < 90])
-        p0 = G.gen_point(rng, grid, windkind)
-        while p0["skind"] == "zero":
+    corpus = load_corpus()
+    for bi in range(nbase + len(corpus)):
+        if bi < len(corpus):
+            c0 = corpus[bi]
+            grid = {"f": c0["frequency_hz"], "dir": c0["direction_deg"], "dirkind": "uniform", "fkind": "corpus"}
+            windkind = c0["wind_speed_input_type"]
+            nondefault = False
+            gp, s4, s6, ro = dict(G.GEN_DEFAULT), dict(G.ST4_DEFAULT), dict(G.ST6_DEFAULT), dict(G.ROM_DEFAULT)
+            p0 = {"U": c0["wind_speed"], "wd": c0["wind_direction"], "depth": float(c0["depth"]),
+                  "z0": c0["roughness_length"], "E": c0["variance_density"], "skind": "corpus:" + c0["name"]}
+            N = len(grid["dir"])
+            step = 360.0 / N
+        else:
+            grid = G.gen_grid(rng, uniform_dirs=True, nd_choices=(16, 24, 36), nf_range=(8, 16))
+            if bi - len(corpus) < 3:
+                grid = G.gen_grid(rng, uniform_dirs=True, nd_choices=((16, 24, 36)[bi - len(corpus)],), nf_range=(8, 16))
+            N = len(grid["dir"])
+            step = 360.0 / N
+            windkind = rng.choice(["u10", "u10", "u10", "friction_velocity"])
+            nondefault = rng.random() < 0.5
+            gp, s4, s6, ro = G.gen_params(rng, nondefault)
+            if nondefault and rng.random() < 0.5:
+                # band widths that are whole multiples of the bin width: the band edge falls on bin centres
+                s4["saturation_integration_width_degrees"] = rng.choice([m * step for m in range(1, N) if 40 <= m * step < 90])
             p0 = G.gen_point(rng, grid, windkind)
-        if rng.random() < 0.3:
-            p0["wd"] = rng.choice([0.0, step, step / 2, 90.0, 180.0 + step / 2])
+            while p0["skind"] == "zero":
+                p0 = G.gen_point(rng, grid, windkind)
+            if rng.random() < 0.3:
+                p0["wd"] = rng.choice([0.0, step, step / 2, 90.0, 180.0 + step / 2])
         pts = []
         for k in range(N):
             p = dict(p0)
@@ -236,6 +266,10 @@ def run(ctx):
             dtol = 1e-7 if name != "stress_int" else 1e-3
             for k in range(1, N + 1):
                 mk, dk = vec(name, k, "stress"), vec(name, k, "direction")
+                if name == "stress_int" and mk != mk:
+                    # internal roughness did not converge for the transformed input (reported with the roughness relation)
+                    ctx.tally("stress with internal roughness: NaN for the transformed input only")
+                    continue
                 ctx.count([name, bi, k, G.flat(p0["E"])[:48], p0["wd"]], m0 != 0)
                 if not C.close(mk, m0, mtol, 0.0):
                     ctx.oracle_fail("%s magnitude changes under %s: %r vs %r" % (name, rep(k)["transformation"], mk, m0),
@@ -278,16 +312,23 @@ def run(ctx):
                                     rep(k, {"output": name, "transformed_value": dk, "original_value": d0}))
                     break
         # -------- roughness length (solver output): invariant at solver tolerance
+        solver_reported = False
         if not G.is_err(r.get("rough")):
             z0 = vec("rough", 0)
             for k in range(1, N + 1):
                 zk = vec("rough", k)
                 ctx.count(["rough", bi, k, G.flat(p0["E"])[:48]])
                 if z0 != z0 or zk != zk:
-                    # the Newton iteration did not converge for at least one of the two inputs; where it does not
-                    # converge its outcome (NaN or a spurious last iterate) is decided by rounding -> not compared
+                    # the Newton iteration did not converge for at least one of the two inputs
                     if (z0 != z0) != (zk != zk):
-                        ctx.tally("roughness: solver converged for only one of original / transformed input (not compared)")
+                        ctx.tally("roughness: solver converged for only one of original / transformed input")
+                        if not solver_reported:
+                            solver_reported = True
+                            ctx.oracle_fail("roughness() is %r for the original and %r after %s: the Newton iteration converges for only one of the two"
+                                            % (z0, zk, rep(k)["transformation"]),
+                                            rep(k, {"output": "roughness", "transformed_value": zk, "original_value": z0,
+                                                    "roughness_of_every_rotation_then_mirror": [vec("rough", q) for q in range(N + 1)]}),
+                                            key=SOLVER_KEY)
                     continue
                 if abs(math.log(zk) - math.log(z0)) > 4e-6:
                     ctx.oracle_fail("roughness() changes under %s: %r vs %r" % (rep(k)["transformation"], zk, z0),
@@ -421,8 +462,9 @@ LEVEL_TEXT = ("Theorems (Coq, every uniform direction grid theta_j = th0 + j 2pi
 LEVEL_NOTE = ("Equalities hold in R; on floats the relation is checked at 1e-9 (solver outputs at solver tolerance). Not proved: "
               "the roughness / wind-inversion solvers themselves (only extensionality of the function they are applied to); the "
               "estimated wind speed/direction relation is checked on the implementation only where the inversion returns a "
-              "finite value. Where the roughness iteration does not converge for one of the two inputs its NaN/last-iterate "
-              "outcome is decided by rounding and is not compared (counted in the evidence). The root x0 of the WAM "
+              "finite value. Where the roughness iteration converges for only one of the two inputs the case is reported under "
+              "the known-finding key roughness:newton-convergence-differs-under-rotation (solver fragility, corpus case "
+              "corpus/C09/roughness_solver_rotation.json). The root x0 of the WAM "
               "critical-height equation is an input of the model. Standard-library real-number axioms only.")
 TECHNIQUE = "Coq proof (cyclic re-indexing + angle addition) + relation check implementation(original) vs implementation(rotated) + extracted-model correspondence"
 DESIGN_REF = "DESIGN.md section 5 C09"
